@@ -101,7 +101,8 @@ fn decode_connect_packet(src: &mut Bytes) -> Result<Packet, DecodeError> {
 }
 
 fn decode_connect_ack_packet(src: &mut Bytes) -> Result<Packet, DecodeError> {
-    ensure!(src.remaining() >= 2, DecodeError::InvalidLength);
+    // flags and return code, nothing else
+    ensure!(src.remaining() == 2, DecodeError::InvalidLength);
     let flags =
         ConnectAckFlags::from_bits(src.get_u8()).ok_or(DecodeError::ConnAckReservedFlagSet)?;
 
